@@ -37,9 +37,9 @@ CHECKS = {
     "C05": ("proof: Lean theorems on the M-machine: labels_aligned_after_accept (every label-bearing move reachable from the table, any composite, repeated objects), inserted_particle_one_label, auto_label_fresh, default_label_honoured (0 and negatives), nexch_counter, template untouched, not_accepted_keeps_labels; known finding proved as composite_insertion_shares_label; tied to the code by scripted grand-canonical histories on the real driver",
             "§6 C05", "Lean 4 theorems on the notification/label model + differential correspondence + bookkeeping oracle fed by a bare user move that receives the documented notifications",
             "single ExchangeMove per accepted trial in the alignment theorem (composite exchange is covered by correspondence only); members of a composite share one labelling"),
-    "C11": ("proof: Lean theorems on the M-machine for DisplacementMove.__call__/attempt_displacement and CompositeDisplacementMove.__call__: disp_changes_only_selected, negative_never_moved, disp_no_candidate_fails, disp_fixed_stays, composite_no_repeat, composite_reports_count, for all label arrays, scripts and retry budgets; tied to the code by scripted accepted/failed displacement trials on the real moves",
+    "C11": ("proof: Lean theorems on the M-machine for DisplacementMove.__call__/attempt_displacement and CompositeDisplacementMove.__call__: disp_changes_only_selected, negative_never_moved, disp_no_candidate_fails, disp_fixed_stays, composite_no_repeat, composite_reports_count, composite_count, for all label arrays, scripts and retry budgets; tied to the code by scripted accepted/failed displacement trials on the real moves",
             "§6 C11", "Lean 4 theorems by case analysis/induction on the move model + differential correspondence + row-wise oracle on real arrays",
-            "the clause 'moved = min(n, eligible) without vetoes' has no theorem yet and is decided by the oracle only"),
+            "composite_count is stated for members sharing one labelling (what move * n produces); heterogeneous labelings are not covered"),
     "C20": ("proof: the model of the driver/user-object interface (Proto20.trialTrace) can mention only the protocol methods; Lean theorems trace_step, notify_atoms, notify_cell, no_notification_elsewhere fix the shape of every trial's trace for all tables/outcomes; tied to the six real drivers by strict proxies around bare user moves and criteria that record every attribute access",
             "§6 C20", "Lean 4 theorems on a protocol-trace model + strict-proxy correspondence and oracle on the real drivers",
             "Python-internal dunder look-ups are not counted as accesses; indices passed to notifications are taken from the real call and checked against the atom count"),
